@@ -28,14 +28,28 @@ def mask_decls():
         m = re.search(r"pub\s+struct\s+(\w+)\s*:\s*u32\s*\{(.*)\}\s*\}\s*$", t, re.S)
         if not m:
             raise Lost("bitflags! block with unexpected shape at %s:%d" % (SPIRV, it.line))
-        consts = re.findall(r"const\s+(\w+)\s*=\s*(0x[0-9a-fA-F_]+|\d+)\s*(?:u32)?\s*;", m.group(2))
+        consts = re.findall(r"const\s+(\w+)\s*=\s*(0x[0-9a-fA-F_]+|\d+|!\s*0)\s*(?:u32)?\s*;", m.group(2))
         n_decl = len(re.findall(r"\bconst\b", m.group(2)))
         if n_decl != len(consts):
             raise Lost("bitflags! %s: %d consts declared, %d read" % (m.group(1), n_decl, len(consts)))
-        out.append((m.group(1), [(c, int(v.replace("_", ""), 0)) for c, v in consts]))
+        # `const _ = !0;` is the bitflags 2.x unnamed flag (every bit known): kept as ("_", 0xffffffff)
+        out.append((m.group(1), [(c, 0xffffffff if v.startswith("!") else int(v.replace("_", ""), 0)) for c, v in consts]))
     if not out:
         raise Lost("no bitflags! blocks found")
     return out
+
+
+MASK_SNAPSHOT = os.path.join(os.path.dirname(__file__), "..", "oracle", "mask_snapshot.json")
+
+
+def snapshot_now():
+    """O4: named flag constants of every bit-mask type (frozen by tools/freeze_oracle.py; stands in for the absent Khronos JSON)"""
+    return {T: {c: v for c, v in consts if c != "_"} for T, consts in mask_decls()}
+
+
+def load_snapshot():
+    import json
+    return json.load(open(MASK_SNAPSHOT))
 
 
 def all_bits(consts):
@@ -57,13 +71,19 @@ spirv = { path = "@REPO@/spirv" }
 
 def harness_text(decls, broken=False):
     hs = ["#![allow(non_snake_case)]", "#[cfg(kani)]", "mod h {"]
+    snap = load_snapshot()
     for T, consts in decls:
-        ALL = all_bits(consts)
+        sn = snap.get(T)
+        named = {c: v for c, v in consts if c != "_"}
+        # O4: the declared flags are those of the snapshot; a type or constant the snapshot lacks, an unnamed catch-all flag,
+        # or a missing constant makes `snapshot_agrees` false
+        agrees = sn is not None and named == sn and len(named) == len(consts)
+        ALL = all_bits(list((sn or named).items()))
         hs.append("""
     #[kani::proof]
     #[kani::unwind(40)]
     fn mask_%(T)s() {
-        const ALL: u32 = %(ALL)d; // or of the %(N)d declared constants
+        const ALL: u32 = %(ALL)d; // or of the declared flag constants (O4 snapshot)
         let n: u32 = kani::any();
         let r = spirv::%(T)s::from_bits(n);
         // C08: accepted iff all set bits are declared; the value converts back to the same number
@@ -83,8 +103,14 @@ def harness_text(decls, broken=False):
         assert!((t | u).bits() == t.bits() | u.bits());
         assert!((t == u) == (t.bits() == u.bits()));
 %(CONSTS)s
-    }""" % {"T": T, "ALL": ALL, "N": len(consts),
-            "CONSTS": "\n".join("        assert!(spirv::%s::%s.bits() == %d);" % (T, c, v) for c, v in consts)})
+    }
+    #[kani::proof]
+    fn mask_snapshot_%(T)s() {
+        // declared flag names and values of %(T)s equal the O4 snapshot: %(WHY)s
+        assert!(%(AGREES)s);
+    }""" % {"T": T, "ALL": ALL, "N": len(consts), "AGREES": "true" if agrees else "false",
+            "WHY": "yes" if agrees else "NO: source %s vs snapshot %s" % (sorted(set(named.items()) ^ set((sn or {}).items()))[:4], "present" if sn is not None else "absent"),
+            "CONSTS": "\n".join("        assert!(spirv::%s::%s.bits() == %d);" % (T, c, v) for c, v in consts if c != "_")})
     if broken:
         T, consts = decls[0]
         hs.append("""
@@ -103,6 +129,7 @@ def run(tier, workdir):
     d = krun.prepare(NAME, {"Cargo.toml": CARGO, "src/lib.rs": harness_text(decls, broken=True)},
                      os.path.dirname(workdir))
     hs = {"mask_%s" % T: {"kind": "complete"} for T, _ in decls}
+    hs.update({"mask_snapshot_%s" % T: {"kind": "complete"} for T, _ in decls})
     hs["mustfail_mask"] = {"kind": "control"}
     r = krun.run_kani(d, hs, unit=NAME, timeout=1800)
     # vacuity control: mustfail_mask has to be refuted
